@@ -158,9 +158,57 @@ class Tracer:
         return ("call", f["def"], f.get("rdef"), args, b)
 
 
+_TRY_VARIANTS = {"Continue": ("Ok", "Some"), "Break": ("Err", "None")}
+
+
+def _select_variant(base, variant, field):
+    """`(X as V).f` where X is (a phi of) freshly built enum values: the payload of the V-alternatives.
+    A value that is constructed and immediately matched (a helper returning Ok(v) whose caller applies `?`) is v.
+    Returns None when X is not made of aggregates."""
+    wanted = (variant,)
+    x = base
+    if x[0] == "call" and x[3] and x[1] and x[1].endswith("Try::branch") and variant in _TRY_VARIANTS:
+        wanted = _TRY_VARIANTS[variant]
+        x = x[3][0]
+    alts = list(x[1]) if x[0] == "phi" else [x]
+    flat = []
+    for a in alts:
+        if a[0] == "phi":
+            flat.extend(a[1])
+        else:
+            flat.append(a)
+    if not any(a[0] == "agg" and a[1] == "adt" and a[3] in wanted for a in flat):
+        return None
+    out = []
+    for a in flat:
+        if a[0] == "agg" and a[1] == "adt":
+            if a[3] in wanted:
+                names = a[4]
+                idx = names.index(field) if field in names else (int(field) if field.isdigit() else None)
+                if idx is None or idx >= len(a[5]):
+                    return None
+                out.append(a[5][idx])
+            # an aggregate of another variant cannot be the matched one
+        elif a[0] == "call" and a[1] and a[1].endswith("FromResidual::from_residual") and "Ok" in wanted:
+            continue        # `?` failure path: produces the other variant
+        else:
+            return None     # an opaque alternative: keep the expression as it is
+    if not out:
+        return None
+    uniq = []
+    for o in out:
+        if o not in uniq:
+            uniq.append(o)
+    return uniq[0] if len(uniq) == 1 else ("phi", tuple(uniq))
+
+
 def mk_place(base, projs):
     if not projs:
         return base
+    if len(projs) >= 2 and projs[0][0] == "downcast" and projs[1][0] == "field" and base[0] in ("call", "phi", "agg"):
+        sel = _select_variant(base, projs[0][2], projs[1][3])
+        if sel is not None:
+            return mk_place(sel, projs[2:])
     # collapse &x followed by deref
     while projs and projs[0] == ("deref",) and base[0] == "ref":
         base = base[1]
@@ -298,7 +346,13 @@ def canon(e, depth=0):
         return "fn:%s" % e[1]
     if k == "place":
         s = canon(e[1], depth + 1)
-        for p in e[2]:
+        projs = list(e[2])
+        # `match r { Ok(v) => v, Err(e) => return Err(e) }` reads the same value as `r?`: one rendering for both
+        if len(projs) >= 2 and projs[0][0] == "downcast" and projs[0][1] == "std::result::Result" and projs[0][2] == "Ok" and \
+                projs[1][0] == "field" and projs[1][3] == "0" and not s.startswith("Try::branch("):
+            s = "(Try::branch(%s) as Continue).0" % s
+            projs = projs[2:]
+        for p in projs:
             if p[0] == "deref":
                 s = "*" + s
             elif p[0] == "field":
